@@ -185,6 +185,7 @@ def _run(sc, tape):
     name = '%s:%s%s' % (sc['service'], sc['backend'], '-meta' if sc['meta_size'] != [1, 1] else '')
     w = World(tape, with_sched=False, start_time=1.7e9 + sc['frac'])
     clock = w.clock
+    w.fs.mtime_res = sc.get('mtime_res')
     http = F.SimHTTP(w)
     if sc.get('ocean'):
         http.ocean = OCEANS[0]
